@@ -166,6 +166,13 @@ def r_return_exceptions(ctx: Ctx, rule: str, funcs=("flush", "gather_and_close")
                     continue
                 if n.op in ("reraise",):
                     continue
+                if ctx.is_await_of(n, "flush", "gather_and_close"):
+                    # delegation to another gathering method: judged there; it must receive the caller's return_exceptions
+                    call = strip_cast(n.ast.value)
+                    t = n.awaited.targets[0]
+                    role = expr_role(ctx, f, ctx.call_arg(call, t, "return_exceptions"))
+                    rep.ob(rule, "a delegated wait receives the caller's return_exceptions", role == "RETEXC", node=n)
+                    continue
                 # does the exception leave the function?
                 for s, lab in n.succ:
                     if lab[0] == "x" and any(x.op == "raise_exit" for x in reach([s], lambda a, b, l: True)) and s.op != "handler" and s.op != "suppressed":
